@@ -36,7 +36,7 @@ def gen_programs(tier: str, seed: int, run: Run | None = None) -> list[dict]:
              "depth": data["depth"], "programs": len(data["printed"])})
         run.coverage.setdefault("coverage_by_action", {})[f"Gen/{cfg}"] = data["coverage"]
     # programs with TWO filled gaps: the pair space (3.3 million states) is sampled by random walks of the same spec
-    npairs = 25000 if tier == "quick" else 400000
+    npairs = 25000 if tier == "quick" else 200000
     pseed = 23 if tier == "quick" else seed + 23     # quick: one fixed sample (every change meets the same programs)
 
     def pairs():
@@ -76,6 +76,40 @@ def execute(cases: list[dict]) -> None:
     res = pmap("harness.impl", "roundtrip", [c["text"] for c in cases])
     for c, r in zip(cases, res):
         c["r"] = r
+
+
+def norm_line_job(c: dict) -> str:
+    """(pool worker) projection of one emitted text for Norm_Trace."""
+    return json.dumps({"id": c["id"], "out": items(c["text"]), "lines": line_info(c["text"])}, ensure_ascii=False)
+
+
+def judge_norm(texts: list[dict], run: Run, shards: int = 6) -> dict:
+    """C18 clauses on texts [{id, text}] (outputs of edits), judged by TLC (Norm_Trace.tla)."""
+    tlc.WORK.mkdir(exist_ok=True)
+    tmp = Path(tempfile.mkdtemp(prefix="norm-", dir=tlc.WORK))
+    try:
+        lines = pmap("harness.engines.layout", "norm_line_job", texts, chunk=400)
+        shards = max(1, min(shards, len(lines) // 300 + 1))
+        files = []
+        for s_ in range(shards):
+            f = tmp / f"n{s_}.ndjson"
+            f.write_text("\n".join(lines[s_::shards]) + "\n")
+            files.append(f)
+
+        def one(f):
+            return tlc.must_ok(tlc.run("Norm_Trace", "Norm_Trace.cfg", workers=1, env={"TRACE_FILE": str(f)}, timeout=3600), "Norm_Trace")
+        with ThreadPoolExecutor(max_workers=shards) as ex:
+            rs = list(ex.map(one, files))
+        out = {}
+        for r in rs:
+            run.add_model(r)
+            for p in r.printed:
+                out[p["id"]] = p
+        run.coverage.setdefault("tlc_runs", []).append({"run": "Norm_Trace (edit outputs)", "jvms": shards, "texts": len(lines)})
+        run.traces += len(lines)
+        return out
+    finally:
+        shutil.rmtree(tmp, ignore_errors=True)
 
 
 def case_line_job(c: dict) -> str | None:
